@@ -1,6 +1,12 @@
 // libc seam: every function here replaces the same-named libc function for the
 // objects compiled from /repo/src (and for the harness itself) through
 // -Wl,--wrap=<name>.  Outside a simulated task the real function is called.
+#ifdef IOSIM_VG
+#include <valgrind/memcheck.h>
+#define VG_OUTPUT_DEFINED(buf, len) do { if ((len) > 0) (void)VALGRIND_CHECK_MEM_IS_DEFINED((buf), (len)); } while (0)
+#else
+#define VG_OUTPUT_DEFINED(buf, len) do { } while (0)
+#endif
 #include "sim.h"
 #include <stdarg.h>
 #include <stdio.h>
@@ -193,6 +199,7 @@ ssize_t __wrap_sendto(int fd, const void *buf, size_t len, int flags, const stru
 		__wrap_bind(fd, (struct sockaddr *)&ss, l);
 	}
 	if (s->owner) s->owner->n_sent++;
+	VG_OUTPUT_DEFINED(buf, len);      // (memcheck flavour) every byte that leaves a real program must have been written by it
 	S->send_from(s, dst, B(buf, len));
 	return (ssize_t)len;
 }
@@ -342,6 +349,7 @@ ssize_t __wrap_write(int fd, const void *buf, size_t n)
 {
 	Tun *u = tun_ofd(fd);
 	if (!u) return __real_write(fd, buf, n);
+	VG_OUTPUT_DEFINED(buf, n);
 	Bytes p = B(buf, n);
 	S->tracef("TUNWRITE %s len=%zu %s", u->owner->name.c_str(), n, hexs(p, 24).c_str());
 	S->fp_mix_str("tunw:" + u->owner->name); S->fp_mix(p.data(), p.size());
